@@ -164,40 +164,130 @@ func runPR(c *Ctx, s *Sink) {
 			return
 		}
 		nfrom, nto := 0, 0
+		// the bounds are the first two arguments of the Subsequence call that cuts the amplicon (whatever their names)
+		var fromObj, toObj types.Object
 		ast.Inspect(b.outer.Body, func(n ast.Node) bool {
-			as, ok := n.(*ast.AssignStmt)
-			if !ok || len(as.Lhs) != 1 || len(as.Rhs) != 1 {
-				return true
-			}
-			id, ok := as.Lhs[0].(*ast.Ident)
-			if !ok {
-				return true
-			}
-			if _, isConst := constInt(info, as.Rhs[0]); isConst {
-				return true
-			}
-			if call, ok := ast.Unparen(as.Rhs[0]).(*ast.CallExpr); ok {
-				if sel, ok := call.Fun.(*ast.SelectorExpr); ok && sel.Sel.Name == "Len" {
-					return true // clamp to seq.Len()
-				}
-			}
-			fmU, rmU := mentions(as.Rhs[0])
-			switch id.Name {
-			case "from":
-				nfrom++
-				if !fmU || rmU {
-					problems = append(problems, c.Pos(as.Pos())+": the amplicon start 'from' is not computed from the first primer's match of this block only")
-				}
-			case "to":
-				nto++
-				if !rmU || fmU {
-					problems = append(problems, c.Pos(as.Pos())+": the amplicon end 'to' is not computed from the second primer's match of this block only")
+			if call, ok := n.(*ast.CallExpr); ok && fromObj == nil {
+				if sel, ok := call.Fun.(*ast.SelectorExpr); ok && sel.Sel.Name == "Subsequence" && len(call.Args) == 3 {
+					f, t := rootObj(info, call.Args[0]), rootObj(info, call.Args[1])
+					_, id0 := ast.Unparen(call.Args[0]).(*ast.Ident)
+					_, id1 := ast.Unparen(call.Args[1]).(*ast.Ident)
+					if f != nil && t != nil && id0 && id1 {
+						fromObj, toObj = f, t
+					}
 				}
 			}
 			return true
 		})
+		isLenOrConst := func(e ast.Expr) bool {
+			if _, isConst := constInt(info, e); isConst {
+				return true
+			}
+			if call, ok := ast.Unparen(e).(*ast.CallExpr); ok {
+				if sel, ok := call.Fun.(*ast.SelectorExpr); ok && sel.Sel.Name == "Len" {
+					return true
+				}
+			}
+			return false
+		}
+		judge := func(pos token.Pos, which types.Object, fmU, rmU bool) {
+			switch which {
+			case fromObj:
+				nfrom++
+				if !fmU || rmU {
+					problems = append(problems, c.Pos(pos)+": the amplicon start is not computed from the first primer's match of this block only")
+				}
+			case toObj:
+				nto++
+				if !rmU || fmU {
+					problems = append(problems, c.Pos(pos)+": the amplicon end is not computed from the second primer's match of this block only")
+				}
+			}
+		}
+		defsPR := collectDefs(info, fd)
+		ast.Inspect(b.outer.Body, func(n ast.Node) bool {
+			as, ok := n.(*ast.AssignStmt)
+			if !ok || fromObj == nil {
+				return true
+			}
+			// from, to[, ok] := helper(fm, rm, …): look at what the helper returns
+			if len(as.Rhs) == 1 && len(as.Lhs) >= 2 {
+				call, isCall := ast.Unparen(as.Rhs[0]).(*ast.CallExpr)
+				if !isCall {
+					return true
+				}
+				body, cinfo, bind := c.calleeSource(info, defsPR, call)
+				if body == nil {
+					return true
+				}
+				// result variables of the helper, by position
+				var rets [][]types.Object
+				ast.Inspect(body, func(k ast.Node) bool {
+					if _, isLit := k.(*ast.FuncLit); isLit {
+						return false
+					}
+					if r, ok := k.(*ast.ReturnStmt); ok && len(r.Results) == len(as.Lhs) {
+						row := make([]types.Object, len(r.Results))
+						for i, e := range r.Results {
+							row[i] = rootObj(cinfo, e)
+						}
+						rets = append(rets, row)
+					}
+					return true
+				})
+				for li, l := range as.Lhs {
+					which := rootObj(info, l)
+					if which != fromObj && which != toObj {
+						continue
+					}
+					fmU, rmU := false, false
+					for _, row := range rets {
+						rv := row[li]
+						if rv == nil {
+							continue
+						}
+						ast.Inspect(body, func(k ast.Node) bool {
+							a2, ok := k.(*ast.AssignStmt)
+							if !ok || len(a2.Lhs) != len(a2.Rhs) {
+								return true
+							}
+							for i2, l2 := range a2.Lhs {
+								if rootObj(cinfo, l2) != rv {
+									continue
+								}
+								ast.Inspect(a2.Rhs[i2], func(m ast.Node) bool {
+									if id, ok := m.(*ast.Ident); ok {
+										if arg, ok := bind[cinfo.ObjectOf(id)]; ok && !isLenOrConst(arg) {
+											f1, r1 := mentions(arg)
+											fmU, rmU = fmU || f1, rmU || r1
+										}
+									}
+									return true
+								})
+							}
+							return true
+						})
+					}
+					judge(as.Pos(), which, fmU, rmU)
+				}
+				return true
+			}
+			if len(as.Lhs) != 1 || len(as.Rhs) != 1 {
+				return true
+			}
+			which := rootObj(info, as.Lhs[0])
+			if _, isIdent := ast.Unparen(as.Lhs[0]).(*ast.Ident); !isIdent || (which != fromObj && which != toObj) {
+				return true
+			}
+			if isLenOrConst(as.Rhs[0]) {
+				return true
+			}
+			fmU, rmU := mentions(as.Rhs[0])
+			judge(as.Pos(), which, fmU, rmU)
+			return true
+		})
 		if nfrom == 0 || nto == 0 {
-			problems = append(problems, "amplicon bounds from/to not found in the block")
+			problems = append(problems, "amplicon bounds (the two first arguments of the Subsequence call) not found in the block")
 		}
 		// (d) annotation stores in order
 		type src struct{ fm, rm, rc bool }
